@@ -2,7 +2,7 @@
 from runner import Stream
 import vlib, gen_cache
 
-PROP_MODULES = ["Vlsp.Props.C03"]
+PROP_MODULES = ["Vlsp.Props.C03", "Vlsp.Props.C03History"]
 RULE = ("random cache fill histories (shuffled, batched, duplicated, interleaved keys/registries, reopen) over version "
         "spellings (v-prefix, partial, prerelease, build metadata, unparsable), both prerelease settings; after each "
         "history get_latest_version is compared with the model applied to the rows actually read; plus metamorphic "
